@@ -236,6 +236,12 @@ def maps_rules(ctx, P="C03"):
     ctx.check(P + ".K4", "kmer_pos_maps:rank_to_kmer", ok2, "kmer_of.insert(pos, kmer)",
               "rank -> k-mer insert is `%s`, expected insert(pos, kmer) with the same pair"
               % (show(fv.term(ins2[0])) if ins2 else "<none>"), line_of(ins2[0]) if ins2 else line_of(enum_loop))
+    rt = fv.fn.get("ret", "")
+    import re as _re
+    narrow = [t for t in _re.findall(r"\b[ui](?:8|16|32)\b", rt)]
+    ctx.check(P + ".K4", "kmer_pos_maps:rank_width", not narrow, "ranks and k-mers are stored at full width (%s)" % rt,
+              "kmer_pos_maps returns `%s`: a %s rank/k-mer wraps for larger k (4^k/2 ranks, 2k-bit codes)"
+              % (rt, narrow[0] if narrow else ""), fv.fn["sp"])
     res = fv.term(fv.body.get("expr")) if fv.body.get("expr") else ("none",)
     ok3 = res[0] == "tup" and len(res) == 4 and set_t is not None and is_len_of(res[3], set_t) \
         and ok1 and res[1] == fv.term(asg[0]["l"])[1] and ok2 and res[2] == fv.term(ins2[0]["recv"])
